@@ -93,7 +93,7 @@ def _imat(rng, m, n, lo=-3, hi=3):
 
 def _spd(rng, n, ill=False):
     B = _imat(rng, n, n, -2, 2)
-    S = B.T.dot(B) + (0.0 if ill else float(rng.randint(1, 3))) * np.eye(n)
+    S = B.T.dot(B) + (0.25 if ill else float(rng.randint(1, 3))) * np.eye(n)
     if ill:
         S = S + np.diag([0.0] * (n - 1) + [float(rng.choice([64, 256]))])
     return S
@@ -598,7 +598,9 @@ def _descent_cases(rng, tier, cs):
         f, ot, od = _objective(rng, n)
         sp = f.domain
         tau = rng.choice([0.5, 0.5, 0.25, 0.75])
-        disc = rng.choice([0.01, 0.0, 0.5, 0.25, 1.0])
+        # discount = 1 can never be met exactly by a function with positive curvature along d; floats then
+        # accept at the first alpha whose alpha^2 term is below one ulp: a pure rounding decision, left out
+        disc = rng.choice([0.01, 0.0, 0.5, 0.25, 0.75])
         disc = float(np.float64(disc))
         mni = rng.choice([0, 1, 3, 8, 20])
         est = rng.random() < 0.4
@@ -1010,8 +1012,9 @@ def _nonsmooth_probes(rng, tier, out):
     import odl
     S = odl.solvers
     N = 10 if tier == 'quick' else 50
-    NIT = 3000
-    for _ in range(N):
+    NC = 4 if tier == 'quick' else 24          # long convergence runs (NIT iterations each)
+    NIT = 2500
+    for _ in range(NC + 2):
         # ---------------- PDHG on f(x) + g(Lx), duals observable
         n = rng.randint(1, 4)
         L, lk = _probe_operator(rng, n, ('matrix', 'gradient', 'pderiv', 'broadcast', 'matrix-weighted'))
@@ -1104,7 +1107,7 @@ def _nonsmooth_probes(rng, tier, out):
         _P(out, max(tr) <= 1e-12, 'forward_backward_pd-solution-fixed-point',
            'forward_backward_pd started at the common minimiser 0 stays there', None)
     # ---------------- convergence through the primal inclusion (g differentiable => dual determined)
-    for _ in range(N):
+    for _ in range(NC):
         n = rng.randint(1, 4)
         sp = odl.rn(n)
         M = _imat(rng, rng.randint(1, 3), n, -2, 2)
